@@ -25,8 +25,11 @@ VERIF = Path(os.environ.get("VERIF_ROOT") or "/verif")
 REPO = Path(os.environ.get("VERIF_REPO") or "/repo")
 COQ = VERIF / "coq"
 WORK = VERIF / "work"
-EVID = VERIF / "evidence"
-REPLAYS = VERIF / "replays"
+# the committed evidence directory records runs on /repo only: a run against a scratch tree (VERIF_REPO set,
+# seeded-change experiments) writes its evidence and replays under work/ (untracked) unless told otherwise
+_SCRATCH_RUN = REPO.resolve() != Path("/repo")
+EVID = Path(os.environ.get("VERIF_EVID") or (WORK / "scratch_evidence" if _SCRATCH_RUN else VERIF / "evidence"))
+REPLAYS = WORK / "scratch_replays" if _SCRATCH_RUN else VERIF / "replays"
 KNOWN = VERIF / "known_findings.txt"
 
 ALLOWED_AXIOMS: set[str] = set()  # every Props theorem is closed under the global context
@@ -380,7 +383,7 @@ class Check:
                 if msg not in self.known_hits:
                     self.known_hits.append(msg)
                 return
-        REPLAYS.mkdir(exist_ok=True)
+        REPLAYS.mkdir(parents=True, exist_ok=True)
         k = len(self.violations)
         path = REPLAYS / f"{self.pid}_{self.tier}_{k}.json"
         replay = dict(replay)
@@ -425,13 +428,13 @@ class Check:
         }
         if self.proof_broken:
             ev["coverage"]["proof_broken"] = [b[:2000] for b in self.proof_broken]
-        EVID.mkdir(exist_ok=True)
+        EVID.mkdir(parents=True, exist_ok=True)
         (EVID / f"{self.pid}.json").write_text(json.dumps(ev, indent=1, default=str))
         for msg in self.known_hits:
             print(msg)
         if self.proof_broken and not self.violations:
             # a proof obligation no longer checks and no failing input was found
-            REPLAYS.mkdir(exist_ok=True)
+            REPLAYS.mkdir(parents=True, exist_ok=True)
             path = REPLAYS / f"{self.pid}_{self.tier}_proof.json"
             path.write_text(json.dumps(dict(property=self.pid, broken=self.proof_broken,
                                             note="theorem / build / assumption audit no longer checks; no failing input found"), indent=1))
